@@ -118,7 +118,7 @@ run_real_stepwise.notes = set()
 
 
 def check(ctx, rep, cases):
-    ans = ctx.driver.query([serverlib.model_query(**c) for c in cases])
+    ans = serverlib.ask_model(ctx, cases)
     proj_q, proj_meta = [], []
     results = []
     for c, a in zip(cases, ans):
